@@ -68,10 +68,22 @@ func (s *JoiningVisitor) EnterOC_NotExpression(ctx *parser.OC_NotExpressionConte
 }
 
 func (s *JoiningVisitor) ExitOC_NotExpression(ctx *parser.OC_NotExpressionContext) {
-	if len(ctx.AllNOT()) > 0 {
+	if notTokens := len(ctx.AllNOT()); notTokens > 0 {
 		visitor := s.ctx.Exit().(*NegationVisitor)
-		s.Joined.Add(visitor.Negation)
+		s.Joined.Add(nestNegations(visitor.Negation, notTokens))
 	}
+}
+
+// nestNegations wraps the negation built for a oC_NotExpression once more for every NOT token after the first: the
+// rule is ( NOT SP? )* oC_ComparisonExpression, so `not not x` negates twice.
+func nestNegations(negation *cypher.Negation, notTokens int) cypher.Expression {
+	var expression cypher.Expression = negation
+
+	for remaining := notTokens - 1; remaining > 0; remaining-- {
+		expression = cypher.NewNegation(expression)
+	}
+
+	return expression
 }
 
 func (s *JoiningVisitor) EnterOC_OrExpression(ctx *parser.OC_OrExpressionContext) {
